@@ -153,7 +153,7 @@ POLY_FUNCS = ["derivative", "gradient", "hessian", "poly_divmod", "poly_divide",
               "lead_exponent", "lead_coefficient", "sortable_proxy", "decompose", "isconstant",
               "set_dimensions", "align_polynomials", "align_exponents", "align_indeterminants",
               "align_shape", "call", "equal", "not_equal", "str", "pickle", "aspolynomial", "clean",
-              "boolpoly", "boolpoly", "astype_ops"]
+              "boolpoly", "boolpoly", "astype_ops", "where_kw", "where_kw", "sequence"]
 RAISERS = ["unknown_name", "bad_shapes", "duplicate_exponents", "tonumpy_nonconstant",
            "numeric_division", "matmul_scalar", "bad_axis", "double_name"]
 
@@ -222,6 +222,25 @@ def call_polyfunc(numpoly, name, a, b):
                 numpoly.count_nonzero(a), numpoly.nonzero(a) if a.ndim else None,
                 numpoly.logical_and(a, b), numpoly.logical_or(a, b), numpoly.where(a, b, a),
                 a == b, numpoly.isconstant(a), str(a))
+    if name == "where_kw":
+        # rarely used where= masks (with False entries) on already aligned operands
+        mask = numpy.arange(a.size).reshape(a.shape) % 2 == 0 if a.ndim else numpy.array(False)
+        out = []
+        for func in (lambda: numpoly.multiply(a, b, where=mask), lambda: numpy.multiply(a, 2, where=mask),
+                     lambda: numpoly.square(a, where=mask), lambda: numpoly.add(a, b, where=mask),
+                     lambda: numpoly.subtract(a, b, where=mask), lambda: numpoly.negative(a, where=mask),
+                     lambda: numpoly.equal(a, b, where=mask), lambda: numpoly.not_equal(a, b, where=mask),
+                     lambda: numpoly.sum(a, where=mask), lambda: numpoly.multiply(a, a, where=mask)):
+            try:
+                out.append(func())
+            except Exception as err:  # pylint: disable=broad-except
+                out.append(type(err).__name__)
+        return out
+    if name == "sequence":
+        # an object reused after it was passed somewhere
+        d1 = numpoly.derivative(a, a.names[0])
+        d2 = numpoly.derivative(a, a.names[-1])
+        return d1, d2, a * b, a(**{a.names[0]: 1}), numpoly.gradient(a), a + d1
     if name == "astype_ops":
         out = []
         for dtype in ("bool", "int8", "float32", "complex128", "uint32"):
